@@ -74,11 +74,11 @@ def corr_doc(c, alias_by_id=False):
         d["condition"] = uncps(cond["expr"])
     else:
         d["rules"] = [ref_text(k) for k in c["refs"]]
-        cd = {cond["op"]: cond["count"]}
+        cd = {cond["op"]: cond["count"] + (0.5 if cond.get("frac") else 0)}
         if cond["hasfield"]:
             cd["field"] = uncps(cond["field"])
         if cond["haspct"]:
-            cd["percentile"] = cond["pct"]
+            cd["percentile"] = cond["pct"] + (0.5 if cond.get("frac") else 0)
         d["condition"] = cd
     if c["hasgroup"]:
         d["group-by"] = [uncps(g) for g in c["groupby"]]
